@@ -157,5 +157,19 @@ CHECKS['C15'] = dict(
           'Schedules unexplored.'),
 )
 
+CHECKS['C17'] = dict(
+    engine='E2 tables + E1 pyvc + E4',
+    level='other',
+    ref='DESIGN.md 4 (C17)',
+    technique='exhaustive equality of the finite lexer/LALR tables of the real objects under the three configurations; deductive contracts (path-complete) for the flag forwarding in Parser.__init__ / Parser.parse',
+    text=('The master regular expressions, token tables and LALR action/goto/production tables of a parser loaded from the '
+          'generated modules, of one built in memory with optimisation off, and of one built after the optimize helper '
+          'regenerated deliberately stale modules are compared entry by entry (about 6000 entries); Parser.__init__ is shown on '
+          'its real AST to forward every flag unchanged to Lexer.build / ply.yacc.yacc, and Parser.parse to pass '
+          'tracking=self.yacc_tracking. The step "equal tables => equal parses for every text" is the assumed determinism of '
+          "ply's driver, hence \"other\"; a bounded differential parse stands beside it."),
+    note='Trusted: ply driver determinism, ply table (de)serialisation. setup.py build hook not exercised.',
+)
+
 NOT_APPLICABLE = {p: PENDING for p in ['C01', 'C02', 'C03', 'C04', 'C05', 'C07', 'C12',
-                                        'C13', 'C17', 'C19']}
+                                        'C13', 'C19']}
